@@ -70,6 +70,16 @@ Payload forms (anything else ⇒ the function is `untranslated: <reason>`, no de
   solveMatrixPDE
     solver selection;  <x> = <s>(<arg>, ...) with parameters as arguments;
     return CellVariable(<m>, np.reshape(<x>, <m>.dims [+ k]))   (or via a name)
+INERT statements (tinert.py: print / warnings.warn / logging calls and asserts on PURE expressions, `pass`, `if <pure>:`
+  over such statements, assignments to locals that only such statements read) are skipped before the statement is
+  classified, at any position of the three solvers and of the accumulation loop: they add nothing to `*_sequence`, so
+  the ordering checks (prologue before the read of the cache, `apply_BCs` directly after the store) see the same
+  sequence.  A validation guard `if <pure>: raise E(...)` is classified first (the guards of the loop body that the
+  cascade understands stay PATHS of `solvePDE_loopPaths`); it is skipped only when its test is not understood.
+  Trailing / keyword-only parameters with a default that only inert statements read are left out of `*_params`.  At
+  module level of pdesolver.py `<name> = logging.getLogger(...)` and `<name> = <constant>` are accepted when <name> is
+  bound once and only inert statements read it.  The test is purely syntactic (closed list of side-effect-free
+  functions, no method call, no store, no `:=`), so a skipped statement cannot write.
 Cross-module checks: `spsolve` import and `use_solver(useUmfpack=...)` of pdesolver.py are recorded; every assignment
   to `self._BCsTerm` in cell.py is `boundaryConditionsTerm(self.BCs)`; every `dims = ...` in mesh.py is
   `np.array([...], dtype=int)` (so `dims + k` is elementwise).
@@ -80,6 +90,9 @@ Trusted (not derived): `phi._BCsTerm` is the pair (matrix, right-hand side) mode
 """
 import ast, sys, os, json
 from fractions import Fraction
+
+sys.path.insert(0, os.path.dirname(os.path.abspath(__file__)))
+import tinert                                                  # noqa: E402
 
 
 class Bad(Exception):
@@ -133,7 +146,7 @@ def is_docstring(st):
 
 
 def params_of(fn):
-    a = fn.args
+    a = tinert.effective_args(fn)           # without the extra parameters that only inert statements read
     if a.vararg or a.kwarg or a.kwonlyargs or a.posonlyargs:
         raise Bad("signature: *args / **kwargs / keyword-only / positional-only parameters")
     names = [x.arg for x in a.args]
@@ -173,7 +186,7 @@ class ModuleInfo:
                         or not isinstance(c.keywords[0].value.value, bool):
                     raise Bad(f"module level: {ast.unparse(c)}")
                 self.use_umfpack = c.keywords[0].value.value
-            elif is_docstring(n):
+            elif is_docstring(n) or tinert.is_inert_module_statement(n, tree):
                 pass
             else:
                 raise Bad(f"module level statement {type(n).__name__} (line {n.lineno})")
@@ -372,6 +385,17 @@ class SolvePDE:
         return self
 
     def step(self, st):
+        inert = tinert.analysis(self.fn)
+        if inert.skip(st):                      # inert statement (tinert.py): not part of the sequence
+            return
+        try:
+            return self.step0(st)
+        except Bad:
+            if inert.skip_guard(st):            # a validation guard that is not understood
+                return
+            raise
+
+    def step0(self, st):
         m = match_state(st, [self.var])
         if m:
             tag, v = m
@@ -593,10 +617,21 @@ class SolvePDE:
             out.append((guards, ("updates", upds)))
             return
         st, rest = stmts[0], stmts[1:]
+        inert = tinert.analysis(self.fn)
+        if inert.skip(st):                      # inert statement (tinert.py): no path, no update
+            return self.enum(rest, guards, lenv, upds, out)
         if mentions_state(st):
+            if inert.skip_guard(st):
+                return self.enum(rest, guards, lenv, upds, out)
             raise Bad(f"state statement inside the loop (line {st.lineno})")
         if isinstance(st, ast.If):
-            for g, o in self.branch(st.test, guards, lenv):
+            try:
+                alts = self.branch(st.test, guards, lenv)
+            except Bad:
+                if inert.skip_guard(st):        # a validation guard whose test the cascade does not understand
+                    return self.enum(rest, guards, lenv, upds, out)
+                raise
+            for g, o in alts:
                 self.enum((st.body if o else st.orelse) + rest, guards + g, dict(lenv), list(upds), out)
             return
         if isinstance(st, ast.Pass):
@@ -779,6 +814,17 @@ class Explicit:
         return [self.var] + [n for n, v in self.env.items() if v[0] in ("newvar", "varalias")]
 
     def step(self, st):
+        inert = tinert.analysis(self.fn)
+        if inert.skip(st):                      # inert statement (tinert.py): not part of the sequence
+            return
+        try:
+            return self.step0(st)
+        except Bad:
+            if inert.skip_guard(st):            # a validation guard that is not understood
+                return
+            raise
+
+    def step0(self, st):
         m = match_state(st, self.names_of_vars())
         if m:
             tag, v = m
@@ -1018,6 +1064,17 @@ class MatrixPDE:
         self.result = {"k": parse_dims_shape(shape, self.mesh, self.mesh_ok)}
 
     def step(self, st):
+        inert = tinert.analysis(self.fn)
+        if inert.skip(st):                      # inert statement (tinert.py): not part of the sequence
+            return
+        try:
+            return self.step0(st)
+        except Bad:
+            if inert.skip_guard(st):            # a validation guard that is not understood
+                return
+            raise
+
+    def step0(self, st):
         if mentions_state(st):
             raise Bad(f"state statement in solveMatrixPDE (line {st.lineno})")
         sel = match_solver_select(st, self.params, self.defaults, self.mod)
@@ -1200,8 +1257,10 @@ structure NewVar where
 def generate(repo):
     src = os.path.join(repo, "src", "pyfvtool")
 
+    tinert.set_repo(repo)
+
     def parse(f):
-        return ast.parse(open(os.path.join(src, f)).read())
+        return tinert.register(ast.parse(open(os.path.join(src, f)).read()))
     status, out = {}, [HEADER]
     mesh_ok = False
     try:
@@ -1260,6 +1319,7 @@ def main():
     repo = os.environ.get("VERIF_REPO", "/repo")
     dst = sys.argv[1]
     text, status = generate(repo)
+    status = tinert.annotate(status)
     write_if_changed(dst, text)
     base = os.path.splitext(os.path.basename(dst))[0].lower()
     write_if_changed(os.path.join(os.path.dirname(os.path.abspath(dst)), f"{base}_status.json"),
